@@ -417,6 +417,23 @@ def tr_step(trigs, script, sstates, needs):
     return kept, sorted(clear), reset[0], pending, sorted(need_vals)
 
 
+# ---- 84081f2: re-attachment clears the deferred flag of the consumers ------------------------
+
+
+def tr_undefer(trigs):
+    """step_node_undefer_reattached, modelled by undefer_post of model/GraphExt.v: exact shape."""
+    t = _get_trigger(trigs, "step_node_undefer_reattached", "UPDATE OF detached", "node")
+    if t["when"] != "OLD.detached AND NOT NEW.detached":
+        raise TranslatorError(f"step_node_undefer_reattached: WHEN changed: {t['when']}")
+    if t["body"] != ("UPDATE step SET deferred = FALSE WHERE deferred AND node IN "
+                     "(SELECT sink FROM dependency WHERE source = NEW.i);"):
+        raise TranslatorError(f"step_node_undefer_reattached: action changed: {t['body']}")
+    src = (REPO / CORE / "executor.py").read_text()
+    if src.count("step.set_state(StepState.PENDING, step.has_unusable_dynamic_input())") != 1:
+        raise TranslatorError("validate_dynamic_job: the deferred flag is no longer has_unusable_dynamic_input()")
+    return True
+
+
 # ---- undeclared => detached -----------------------------------------------------------------
 
 
@@ -549,6 +566,7 @@ _KNOWN_WRITERS = {
     "step_clear_deferred": {"step.deferred"},
     "step_reset_defer_count": {"step.defer_count"},
 }
+_KNOWN_WRITERS["step_node_undefer_reattached"] = {"step.deferred"}
 _KNOWN_RAISERS = {"node_check_creator_kind_ins", "node_check_creator_kind_upd", "dependency_check_kinds_ins",
                   "file_check_undeclared_detached_ins", "file_check_undeclared_detached_upd"}
 
@@ -644,6 +662,7 @@ def facts():
         "creator_kind_exempt": creator_exempt,
         "dependency_kinds": tr_dependency_kinds(all_trigs, names),
         "declarable_states": tr_declarable(enums, wf),
+        "undefer_reattached": tr_undefer(all_trigs),
         "census": census(all_trigs),
     }
 
@@ -709,6 +728,11 @@ def render_facts(f) -> str:
         f"Definition gen_step_deferred_check_state : N := {f['deferred_check_state']}.",
         "(*    CHECK (need IN (...)): the Need values that can be stored in step.need *)",
         f"Definition gen_step_need_column_values : list N := {_nl(f['need_column_values'])}.",
+        "",
+        "(*    step_node_undefer_reattached (AFTER UPDATE OF detached ON node WHEN OLD.detached AND NOT NEW.detached:",
+        "      deferred = FALSE for the steps that consume the node) and validate_dynamic_job's flag:",
+        "      recognised in their exact shape; modelled by undefer_post / has_unusable_dynamic_input of model/GraphExt.v *)",
+        "Definition gen_undefer_reattached : bool := true.",
         "",
         "(* g. node kinds: " + ", ".join(f"{k!r} = {c}" for k, c in sorted(f["kind_names"].items(), key=lambda kc: kc[1]))
         + " (Root/File/Step/StaticTree.kind()) *)",
